@@ -132,9 +132,11 @@ end wiring
 /-- three-valued recognisers (`false` = recognised and wrong; an unrecognised shape makes the item `untranslatable`): the
 polarisation string is lower-cased before the dispatch; the Snell-angle buffer is complex (it must not inherit the dtype of the
 caller's stack: integer stacks, evanescent gaps); no in-place operator or element store touches the arguments or the views
-`indices` / `thicknesses` of the caller's array -/
+`indices` / `thicknesses` of the caller's array; and, for EVERY function of thinfilm.py, no in-place operator, element / slice store,
+mutating method or `out=` on a parameter or on a local that may alias one (views, asarray, reshape, moveaxis, plain aliases) -/
 theorem gen_structure :
-    stackPolarizationLowercased = true ∧ stackAngleBufferIsComplex = true ∧ stackNoInPlaceOnCallerData = true := by decide
+    stackPolarizationLowercased = true ∧ stackAngleBufferIsComplex = true ∧ stackNoInPlaceOnCallerData = true ∧
+    thinfilmNoInPlaceOnParameters = true := by decide
 
 /-! ## Fresnel coefficients (over the generated formulas) -/
 section fresnel
@@ -748,6 +750,178 @@ theorem evanescent_params (b : ℝ) :
 /-- non-vacuity: an evanescent layer with the real `sinh`, `cosh` -/
 example (b : ℝ) : (GLayer.evan (Real.sinh b) (Real.cosh b) 2 (3/2)).ok :=
   ⟨(evanescent_params b).2.2, by norm_num, by norm_num⟩
+
+/-! ## reversibility: Stokes relations, reversed stacks, ambient-matched layers (Session 3, second pass) -/
+
+section stokes
+variable {K : Type} [Field K]
+
+/-- Stokes relations at a bare interface, over the generated Fresnel formulas: seen from the other side `r' = -r` and
+`t t' - r r' = 1`, both polarisations (any field: complex indices included) -/
+theorem fresnel_stokes_relations (n0 n1 c0 c1 : K) (hs : n0 * c0 + n1 * c1 ≠ 0) (hp : n0 * c1 + n1 * c0 ≠ 0) :
+    (fresnelRs n1 n0 c1 c0 = -fresnelRs n0 n1 c0 c1 ∧
+      fresnelTs n0 n1 c0 c1 * fresnelTs n1 n0 c1 c0 - fresnelRs n0 n1 c0 c1 * fresnelRs n1 n0 c1 c0 = 1) ∧
+    (fresnelRp n1 n0 c1 c0 = -fresnelRp n0 n1 c0 c1 ∧
+      fresnelTp n0 n1 c0 c1 * fresnelTp n1 n0 c1 c0 - fresnelRp n0 n1 c0 c1 * fresnelRp n1 n0 c1 c0 = 1) := by
+  have hs' : n1 * c1 + n0 * c0 ≠ 0 := by rwa [add_comm]
+  have hp' : n1 * c0 + n0 * c1 ≠ 0 := by rwa [add_comm]
+  have es : n1 * c1 + n0 * c0 = n0 * c0 + n1 * c1 := add_comm _ _
+  have ep : n1 * c0 + n0 * c1 = n0 * c1 + n1 * c0 := add_comm _ _
+  refine ⟨⟨?_, ?_⟩, ⟨?_, ?_⟩⟩ <;> c17_unfold <;> push_cast <;> simp only [es, ep]
+  · field_simp; ring
+  · rw [div_mul_div_comm, div_mul_div_comm, div_sub_div_same, div_eq_one_iff_eq (mul_ne_zero hs hs)]; ring
+  · field_simp; ring
+  · rw [div_mul_div_comm, div_mul_div_comm, div_sub_div_same, div_eq_one_iff_eq (mul_ne_zero hp hp)]; ring
+
+/-- a layer index-matched to the AMBIENT medium (`n = n₀`, `cos θ = cos θ₀`) in front of any stack only multiplies `A₀₀` by
+`cos β + mI sin β` and `A₁₀` by `cos β - mI sin β` (unit-modulus phases for a lossless layer): `|r|`, `|t|` are unchanged -/
+theorem ambient_matched_layer (mI sb cb n0 c0 ne ce : K) (M : M22 K) (hn : n0 ≠ 0) (hc : c0 ≠ 0) :
+    ((amatS n0 c0 ((charS mI sb cb c0 n0).mul M) ne ce).a = (cb + mI * sb) * (amatS n0 c0 M ne ce).a ∧
+     (amatS n0 c0 ((charS mI sb cb c0 n0).mul M) ne ce).c = (cb - mI * sb) * (amatS n0 c0 M ne ce).c) ∧
+    ((amatP n0 c0 ((charP mI sb cb c0 n0).mul M) ne ce).a = (cb + mI * sb) * (amatP n0 c0 M ne ce).a ∧
+     (amatP n0 c0 ((charP mI sb cb c0 n0).mul M) ne ce).c = (cb - mI * sb) * (amatP n0 c0 M ne ce).c) := by
+  rw [gen_amatS, gen_amatS, gen_amatP, gen_amatP, gen_charS, gen_charP]
+  refine ⟨⟨?_, ?_⟩, ⟨?_, ?_⟩⟩ <;>
+    simp only [Model.C17.amatS, Model.C17.amatP, Model.C17.layerS, Model.C17.layerP, M22.mul, M22.smul, ofInt_eq] <;>
+    push_cast <;> field_simp <;> ring
+
+/-- swap of the diagonal entries -/
+def dflip (m : M22 K) : M22 K := ⟨m.d, m.b, m.c, m.a⟩
+
+omit [Field K] in
+/-- swapping twice is the identity -/
+theorem flip_flip (m : M22 K) : dflip (dflip m) = m := rfl
+
+/-- the swap reverses products -/
+theorem flip_mul (x y : M22 K) : dflip (x.mul y) = (dflip y).mul (dflip x) := by
+  apply M22.ext' <;> simp only [dflip, M22.mul] <;> ring
+
+/-- the identity is fixed -/
+theorem flip_one : dflip (M22.one : M22 K) = M22.one := by
+  apply M22.ext' <;> simp [dflip, M22.one]
+
+/-- reversing the order of a stack whose layer matrices have equal diagonal entries (every characteristic matrix does) swaps the
+diagonal entries of the product — any number of layers -/
+theorem prod_reverse (ms : List (M22 K)) (h : ∀ m ∈ ms, m.a = m.d) : prod ms.reverse = dflip (prod ms) := by
+  induction ms with
+  | nil => simp [prod, flip_one]
+  | cons m ms ih =>
+    have hm : dflip m = m := by
+      have := h m (by simp); apply M22.ext' <;> simp [dflip, this]
+    rw [List.reverse_cons, prod_append, prod_singleton, prod_cons, flip_mul, hm, ih (fun x hx => h x (by simp [hx]))]
+
+/-- the characteristic matrices the code builds have equal diagonal entries -/
+theorem char_diag (mI sb cb ct n : K) : (charS mI sb cb ct n).a = (charS mI sb cb ct n).d ∧ (charP mI sb cb ct n).a = (charP mI sb cb ct n).d := by
+  rw [gen_charS, gen_charP]; exact ⟨rfl, rfl⟩
+end stokes
+
+/-- diagonal swap on the real representation -/
+def LM.flip (m : LM) : LM := ⟨m.s, m.q, m.r, m.p⟩
+/-- compatible with the complex matrix -/
+theorem LM.flip_toC (m : LM) : (LM.flip m).toC = dflip m.toC := rfl
+/-- the swap keeps `p s + q r` -/
+theorem LM.flip_det (m : LM) : (LM.flip m).det = m.det := by simp only [LM.flip, LM.det]; ring
+
+/-- reversibility of a lossless stack (s-polarisation): light incident from the exit side on the reversed stack sees
+`t' = (η_e/η₀) t` (reciprocity), `r' A₀₀ = -conj A₁₀` hence `|r'| = |r|`, and the generalised Stokes relation
+`t t' - r r' = conj A₀₀ / A₀₀` (a unit-modulus phase; `= 1` when `A₀₀` is real, e.g. a bare interface) -/
+theorem stack_reversibility_s (m : LM) (hm : m.det = 1) (n0 c0 ne ce : ℝ) (hn0 : 0 < n0) (hc0 : 0 < c0) (hne : 0 < ne) (hce : 0 < ce) :
+    let A := amatS (n0 : ℂ) c0 m.toC ne ce
+    let A' := amatS (ne : ℂ) ce (LM.flip m).toC n0 c0
+    ttot A' = ((ne * ce) / (n0 * c0) : ℝ) * ttot A ∧ rtot A' * A.a = -(starRingEnd ℂ) A.c ∧
+    normSq (rtot A') = normSq (rtot A) ∧
+    ttot A * ttot A' - rtot A * rtot A' = (starRingEnd ℂ) A.a / A.a := by
+  intro A A'
+  obtain ⟨ea, ec⟩ := amatS_entries m n0 c0 ne ce
+  obtain ⟨ea', ec'⟩ := amatS_entries (LM.flip m) ne ce n0 c0
+  have hE := amatS_energy m hm n0 c0 ne ce (by positivity)
+  have h1 : (n0 : ℂ) ≠ 0 := by exact_mod_cast ne_of_gt hn0
+  have h2 : (c0 : ℂ) ≠ 0 := by exact_mod_cast ne_of_gt hc0
+  have h3 : (ne : ℂ) ≠ 0 := by exact_mod_cast ne_of_gt hne
+  have h4 : (ce : ℂ) ≠ 0 := by exact_mod_cast ne_of_gt hce
+  have k1 : A'.a = ((n0 * c0) / (ne * ce) : ℝ) * A.a := by
+    simp only [A, A', gen_amatS]; rw [ea', ea]; simp only [LM.flip]; push_cast; field_simp; ring
+  have k2 : A'.c = -(((n0 * c0) / (ne * ce) : ℝ) : ℂ) * (starRingEnd ℂ) A.c := by
+    simp only [A, A', gen_amatS]; rw [ec', ec]; simp only [LM.flip, map_add, map_mul, conj_ofReal, conj_I]; push_cast; field_simp; ring
+  have ha : A.a ≠ 0 := by
+    intro h0
+    have : normSq A.a = 0 := by rw [h0]; simp
+    have hc := normSq_nonneg A.c
+    have hτ : 0 < (ne * ce) / (n0 * c0) := by positivity
+    simp only [A, gen_amatS] at this hc; linarith
+  have hEc : A.a * (starRingEnd ℂ) A.a - A.c * (starRingEnd ℂ) A.c = (((ne * ce) / (n0 * c0) : ℝ) : ℂ) := by
+    rw [mul_conj, mul_conj, ← ofReal_sub]; simp only [A, gen_amatS]; rw [hE]
+  have ha' : A'.a ≠ 0 := by
+    rw [k1]; apply mul_ne_zero _ ha; push_cast; exact div_ne_zero (mul_ne_zero h1 h2) (mul_ne_zero h3 h4)
+  simp only [(gen_rtot_ttot _).1, (gen_rtot_ttot _).2, Model.C17.rtot, Model.C17.ttot, ofInt_eq, Int.cast_one]
+  refine ⟨?_, ?_, ?_, ?_⟩
+  · rw [k1]; push_cast; field_simp
+  · rw [k2, k1]; push_cast; field_simp
+  · rw [normSq_div, normSq_div, k2, k1, normSq_mul, normSq_mul, normSq_neg, normSq_conj, normSq_ofReal]
+    have : ((n0 * c0) / (ne * ce) : ℝ) ≠ 0 := by positivity
+    have hna : normSq A.a ≠ 0 := by simpa using ha
+    field_simp
+  · rw [k2, k1]; push_cast at hEc ⊢; field_simp at hEc ⊢
+    linear_combination -hEc
+/-- reversibility of a lossless stack (p-polarisation; same relations with `A^p`): light incident from the exit side on the reversed stack sees
+`t' = (η_e/η₀) t` (reciprocity), `r' A₀₀ = -conj A₁₀` hence `|r'| = |r|`, and the generalised Stokes relation
+`t t' - r r' = conj A₀₀ / A₀₀` (a unit-modulus phase; `= 1` when `A₀₀` is real, e.g. a bare interface) -/
+theorem stack_reversibility_p (m : LM) (hm : m.det = 1) (n0 c0 ne ce : ℝ) (hn0 : 0 < n0) (hc0 : 0 < c0) (hne : 0 < ne) (hce : 0 < ce) :
+    let A := amatP (n0 : ℂ) c0 m.toC ne ce
+    let A' := amatP (ne : ℂ) ce (LM.flip m).toC n0 c0
+    ttot A' = ((ne * ce) / (n0 * c0) : ℝ) * ttot A ∧ rtot A' * A.a = -(starRingEnd ℂ) A.c ∧
+    normSq (rtot A') = normSq (rtot A) ∧
+    ttot A * ttot A' - rtot A * rtot A' = (starRingEnd ℂ) A.a / A.a := by
+  intro A A'
+  obtain ⟨ea, ec⟩ := amatP_entries m n0 c0 ne ce
+  obtain ⟨ea', ec'⟩ := amatP_entries (LM.flip m) ne ce n0 c0
+  have hE := amatP_energy m hm n0 c0 ne ce (by positivity)
+  have h1 : (n0 : ℂ) ≠ 0 := by exact_mod_cast ne_of_gt hn0
+  have h2 : (c0 : ℂ) ≠ 0 := by exact_mod_cast ne_of_gt hc0
+  have h3 : (ne : ℂ) ≠ 0 := by exact_mod_cast ne_of_gt hne
+  have h4 : (ce : ℂ) ≠ 0 := by exact_mod_cast ne_of_gt hce
+  have k1 : A'.a = ((n0 * c0) / (ne * ce) : ℝ) * A.a := by
+    simp only [A, A', gen_amatP]; rw [ea', ea]; simp only [LM.flip]; push_cast; field_simp; ring
+  have k2 : A'.c = -(((n0 * c0) / (ne * ce) : ℝ) : ℂ) * (starRingEnd ℂ) A.c := by
+    simp only [A, A', gen_amatP]; rw [ec', ec]; simp only [LM.flip, map_add, map_mul, conj_ofReal, conj_I]; push_cast; field_simp; ring
+  have ha : A.a ≠ 0 := by
+    intro h0
+    have : normSq A.a = 0 := by rw [h0]; simp
+    have hc := normSq_nonneg A.c
+    have hτ : 0 < (ne * ce) / (n0 * c0) := by positivity
+    simp only [A, gen_amatP] at this hc; linarith
+  have hEc : A.a * (starRingEnd ℂ) A.a - A.c * (starRingEnd ℂ) A.c = (((ne * ce) / (n0 * c0) : ℝ) : ℂ) := by
+    rw [mul_conj, mul_conj, ← ofReal_sub]; simp only [A, gen_amatP]; rw [hE]
+  have ha' : A'.a ≠ 0 := by
+    rw [k1]; apply mul_ne_zero _ ha; push_cast; exact div_ne_zero (mul_ne_zero h1 h2) (mul_ne_zero h3 h4)
+  simp only [(gen_rtot_ttot _).1, (gen_rtot_ttot _).2, Model.C17.rtot, Model.C17.ttot, ofInt_eq, Int.cast_one]
+  refine ⟨?_, ?_, ?_, ?_⟩
+  · rw [k1]; push_cast; field_simp
+  · rw [k2, k1]; push_cast; field_simp
+  · rw [normSq_div, normSq_div, k2, k1, normSq_mul, normSq_mul, normSq_neg, normSq_conj, normSq_ofReal]
+    have : ((n0 * c0) / (ne * ce) : ℝ) ≠ 0 := by positivity
+    have hna : normSq A.a ≠ 0 := by simpa using ha
+    field_simp
+  · rw [k2, k1]; push_cast at hEc ⊢; field_simp at hEc ⊢
+    linear_combination -hEc
+
+/-- the reversed stack, layer by layer: if the ordered product of the lossless layers is `m`, the product of the SAME layers in
+reverse order is `m` with its diagonal entries swapped — any depth, both polarisations (so `stack_reversibility_s/p` speak about the
+physically reversed stack) -/
+theorem reversed_stack_lossless (ls : List Layer) (h : ∀ l ∈ ls, l.ok) :
+    (∃ m : LM, m.det = 1 ∧ prod (layersS ls) = m.toC ∧ prod (layersS ls.reverse) = (LM.flip m).toC) ∧
+    (∃ m : LM, m.det = 1 ∧ prod (layersP ls) = m.toC ∧ prod (layersP ls.reverse) = (LM.flip m).toC) := by
+  obtain ⟨⟨m, hm, e⟩, ⟨m', hm', e'⟩⟩ := lossless_closed ls h
+  refine ⟨⟨m, hm, e, ?_⟩, ⟨m', hm', e', ?_⟩⟩
+  · have : layersS ls.reverse = (layersS ls).reverse := by simp [layersS, List.map_reverse]
+    rw [this, prod_reverse _ (by
+      intro x hx; simp only [layersS, List.mem_map] at hx; obtain ⟨l, _, rfl⟩ := hx; exact (char_diag _ _ _ _ _).1), e, LM.flip_toC]
+  · have : layersP ls.reverse = (layersP ls).reverse := by simp [layersP, List.map_reverse]
+    rw [this, prod_reverse _ (by
+      intro x hx; simp only [layersP, List.mem_map] at hx; obtain ⟨l, _, rfl⟩ := hx; exact (char_diag _ _ _ _ _).2), e', LM.flip_toC]
+
+/-- non-vacuity: the bare interface (`m = 1`) has real `A₀₀`, so the generalised relation reduces to `t t' - r r' = 1` -/
+example : (LM.flip LM.one) = LM.one ∧ LM.one.det = 1 := ⟨rfl, LM.det_one⟩
 
 /-! ## non-vacuity -/
 /-- the layer hypotheses are met by real angles and indices -/
